@@ -5,7 +5,7 @@
 
   `Ledger.Intact s s'` (Lemmas/LedgerIntact.lean) spells out "intact": same live blocks and ghost
   state, same chunks with the same address ranges and the SAME BYTES, same bump positions up to
-  and including the current chunk, the current chunk the same or a later existing one.
+  and including the current chunk, and (since the crate fix c107ca6) the same current chunk.
 
   ONLY property theorems live here; helper lemmas are in `Lemmas/Ledger*.lean`.
 -/
@@ -93,6 +93,55 @@ theorem shrink_error_intact {cfg : Cfg} {s s' : State} {ptr oldSize : Nat} {newL
   rcases shrink_error hr with h1 | h1
   · exact inAnotherChunk_error_intact h1
   · exact alloc_error_intact h1
+
+/-! ## A failed call leaves the allocator in the chunk it started in
+
+  (Crate fix c107ca6: before it, a refused chunk request left the LAST chunk current.)  Together with
+  `Intact.pos` this means: after an error the current chunk and its bump position — the place the next
+  allocation is served from — are exactly what they were. -/
+
+theorem inAnotherChunk_error_keeps_cur {cfg : Cfg} {k : Kind} {s s' : State} {L : Layout} {h : Hints} {e : AErr}
+    (hr : inAnotherChunk cfg k s L h = .ok (s', .error e)) : s'.cur = s.cur :=
+  (inAnotherChunk_error_intact hr).1.sameCur
+
+theorem allocGeneric_error_keeps_cur {cfg : Cfg} {k : Kind} {s s' : State} {L : Layout} {h hs : Hints} {e : AErr}
+    (hr : allocGeneric cfg k s L h hs = .ok (s', .error e)) : s'.cur = s.cur :=
+  (allocGeneric_error_intact hr).1.sameCur
+
+theorem alloc_error_keeps_cur {cfg : Cfg} {s s' : State} {L : Layout} {e : AErr}
+    (hr : alloc cfg s L = .ok (s', .error e)) : s'.cur = s.cur ∧ curPos cfg s' = curPos cfg s := by
+  have hi := (alloc_error_intact hr).1
+  refine ⟨hi.sameCur, ?_⟩
+  unfold curPos
+  rw [hi.sameCur]
+  obtain ⟨cu, hcu⟩ : ∃ cu, s.cur = cu := ⟨_, rfl⟩
+  cases cu with
+  | unallocated => simp only [hcu]
+  | claimed => simp only [hcu]
+  | chunk i =>
+    have hp := hi.pos i hcu i (Nat.le_refl i)
+    simp only [hcu]
+    cases h1 : s.chunks[i]? with
+    | none => rw [h1] at hp; cases h2 : s'.chunks[i]? with
+      | none => rfl
+      | some c => rw [h2] at hp; cases hp
+    | some c =>
+      rw [h1] at hp
+      cases h2 : s'.chunks[i]? with
+      | none => rw [h2] at hp; cases hp
+      | some c' => rw [h2] at hp; simp only [Option.map_some, Option.some.injEq] at hp; exact hp
+
+theorem grow_error_keeps_cur {cfg : Cfg} {s s' : State} {ptr oldSize : Nat} {newL : Layout} {e : AErr}
+    (hr : grow cfg s ptr oldSize newL = .ok (s', .error e)) : s'.cur = s.cur :=
+  (grow_error_intact hr).1.sameCur
+
+theorem shrink_error_keeps_cur {cfg : Cfg} {s s' : State} {ptr oldSize : Nat} {newL : Layout} {e : AErr}
+    (hr : shrink cfg s ptr oldSize newL = .ok (s', .error e)) : s'.cur = s.cur :=
+  (shrink_error_intact hr).1.sameCur
+
+theorem reserveDyn_error_keeps_cur {cfg : Cfg} {s s' : State} {add : Nat} {e : AErr}
+    (hr : reserveDyn cfg s add = .ok (s', .error e)) : s'.cur = s.cur :=
+  (reserveDyn_error_intact hr).1.sameCur
 
 /-! ## A refusing base allocator produces an error value, never a fault
 
@@ -276,6 +325,12 @@ example : ∃ s', grow cfg0 sFull 4492 100 { size := 200, align := 8 } = .ok (s'
 example : alloc cfg0 sClaimed L100 = .ok (sClaimed, .error .claimed) := alloc_claimed rfl sClaimed_fast
 /-- a request whose chunk size does not fit in `usize` -/
 example : ∃ s', alloc cfg0 sFull { size := 2^63 - 8, align := 8 } = .ok (s', .error .capacityOverflow) := ⟨_, rfl⟩
+
+/-- two full chunks, the first one current; a 2000-byte request walks into the second chunk, finds no
+    room, is refused by the base allocator: the first chunk is still current afterwards -/
+example : ∃ s', alloc cfg0 { sFull with chunks := [ch 4096 496 4592, ch 8192 1008 9200] }
+      { size := 2000, align := 8 } = .ok (s', .error .alloc) ∧ s'.cur = .chunk 0 ∧
+      s'.chunks.map (·.pos) = [4592, 8224] := ⟨_, rfl, rfl, rfl⟩
 
 end Examples
 
